@@ -371,6 +371,10 @@ class RepoInterp:
                 return self.interp._call_local(held_c, list(args), dict(kwargs), st)
             if isinstance(held_c, R) and held_c.kind in ("accessor", "partial"):
                 fval = held_c
+        if isinstance(fval, Ref) and fval.kind == "obj" and isinstance(call.func, ast.Name) and call.func.id in st.env:
+            v_co = self.call_value(fval, call, args, kwargs, st)  # a local / parameter that holds a callable object of the package
+            if v_co is not None:
+                return v_co
         if isinstance(fval, R) and fval.kind == "boundmethod" and (isinstance(fval.fields.get("self"), Ref) or (isinstance(fval.fields.get("self"), S) and "cls" in fval.fields)) \
                 and isinstance(call.func, ast.Name):
             v_bm = self.call_value(fval, call, args, kwargs, st)
@@ -585,10 +589,15 @@ class RepoInterp:
         tailname = (fname or "").split(".")[-1]
         if tailname == "partial" and (fname in ("partial", "functools.partial")) and call.args:
             return R("partial", call=K(call.args[0]), args=K(tuple(args[1:])), kwargs=K(tuple(kwargs.items())))
+        if fname in ("itertools.repeat", "repeat") and len(args) == 1 and not kwargs and (fname != "repeat" or self.cur_fi.module.imports.get("repeat") == "itertools.repeat"):
+            return R("repeat_forever", value=args[0])  # only meaningful next to a finite sequence in zip()
         if fname == "zip" and args and not kwargs:
-            cols = [it.iterate(a, st) for a in args]
-            if all(c is not None for c in cols):
-                return K(tuple(K(tuple(r)) for r in zip(*cols)))
+            cols = [None if (isinstance(a, R) and a.kind == "repeat_forever") else it.iterate(a, st) for a in args]
+            finite = [c for c, a in zip(cols, args) if not (isinstance(a, R) and a.kind == "repeat_forever")]
+            if finite and all(c is not None for c in finite):
+                n_z = min(len(c) for c in finite)
+                cols2 = [([a.fields["value"]] * n_z) if (isinstance(a, R) and a.kind == "repeat_forever") else c for c, a in zip(cols, args)]
+                return K(tuple(K(tuple(r)) for r in zip(*cols2)))
             return None
         if tailname in ("takewhile", "dropwhile", "filter", "map", "starmap") and fname in (tailname, "itertools." + tailname) and len(call.args) == 2 and not kwargs:
             seq = it.iterate(args[1], st)
@@ -1352,6 +1361,18 @@ class RepoInterp:
                 return self.inline_call(m, call, obj, list(args), dict(kwargs), st)
             finally:
                 self.self_class = saved
+        if isinstance(fv, Ref) and fv.kind == "obj":
+            # an instance of a class of the package that defines __call__ (a callable object: a closure turned into a class)
+            ci_o = self._class_of_ref(fv, st)
+            m_o = self.repo.method(ci_o, "__call__") if ci_o is not None else None
+            if m_o is None:
+                return None
+            saved_o = self.self_class
+            self.self_class = ci_o
+            try:
+                return self.inline_call(m_o, call, fv, list(args), dict(kwargs), st)
+            finally:
+                self.self_class = saved_o
         if isinstance(fv, S) and fv.name.startswith("func:"):
             fq = fv.name[5:]
             callee = next((f for f in self.repo.all_functions() if f.fq == fq), None)
